@@ -56,7 +56,7 @@ def check_unit(case, rec):
     n_cells = len(case["arrays"][0]["data"]) if case["arrays"] else 0
     base_arrays = [A.make_array(s, [n_cells]) for s in case["arrays"]]
     sig = "%s|%s" % (cmd, "n%d" % len(base_arrays))
-    st0, r0 = A.run_command(cmd, base_arrays, case["params"])
+    st0, r0 = A.run_command(cmd, base_arrays, case["params"], aliases=case.get("aliases"))
     tol = 1e-5 if any(sp["dtype"] == "float32" for sp in case["arrays"]) else 1e-9
     if cmd in R.STATISTICAL and base_arrays:
         # statistics of values with a large common offset are conditioned by offset / spread: the order of summation
@@ -77,7 +77,7 @@ def check_unit(case, rec):
     if perm and len(perm) == n_cells:
         p = numpy.array(perm)
         parr = [a[p] for a in base_arrays]
-        st1, r1 = A.run_command(cmd, parr, case["params"])
+        st1, r1 = A.run_command(cmd, parr, case["params"], aliases=case.get("aliases"))
         rec.label("permutation")
         if kind_of(st1, r1) != k0:
             fails.append(Failure(sig + "|permute:outcome", "%s vs %s" % (k0, kind_of(st1, r1))))
@@ -92,7 +92,7 @@ def check_unit(case, rec):
     # reshapes
     for shape in factorisations(n_cells):
         rarr = [a.reshape(shape) for a in base_arrays]
-        st2, r2 = A.run_command(cmd, rarr, case["params"])
+        st2, r2 = A.run_command(cmd, rarr, case["params"], aliases=case.get("aliases"))
         rec.label("reshape:rank%d" % len(shape))
         cls = "rank%d" % len(shape)
         if kind_of(st2, r2) != k0:
@@ -112,7 +112,7 @@ def check_unit(case, rec):
         # transposition is a common permutation of the cells; the transposed inputs are non-contiguous views
         if sum(1 for d in shape if d > 1) >= 2:
             tarr = [a.T for a in rarr]
-            st3, r3 = A.run_command(cmd, tarr, case["params"])
+            st3, r3 = A.run_command(cmd, tarr, case["params"], aliases=case.get("aliases"))
             rec.label("transposed_view")
             if kind_of(st3, r3) != k0:
                 fails.append(Failure("%s|transpose:%s:outcome" % (sig, cls), "shape %r transposed: %s vs %s" % (shape, kind_of(st3, r3), k0)))
@@ -131,7 +131,7 @@ def check_unit(case, rec):
         # (single-precision statistics over many cells accumulate more error than any fixed tolerance: not replicated)
         big = [numpy.ma.concatenate([a] * k) if numpy.ma.isMaskedArray(a) else numpy.concatenate([a] * k) for a in base_arrays]
         big = [numpy.ma.array(b, copy=False) for b in big]
-        st4, r4 = A.run_command(cmd, big, case["params"])
+        st4, r4 = A.run_command(cmd, big, case["params"], aliases=case.get("aliases"))
         rec.label("replicated:x%d" % k)
         if kind_of(st4, r4) != k0:
             fails.append(Failure(sig + "|replicate:outcome", "%d cells x %d: %s vs %s" % (n_cells, k, kind_of(st4, r4), k0)))
